@@ -19,6 +19,7 @@ def run(ctx):
     value_dependent_refusal(ctx)
     from rules import lib_nonverbose
     lib_nonverbose.check(ctx)
+    lib_nonverbose.check_decoders(ctx)
     try:
         from rules import lib_panic
         lib_panic.check(ctx, [FN], None, rule="PANIC")
